@@ -265,9 +265,11 @@ func (vc *VC) callSpec(sf *SpecFunc, args []Val, st *State) Val {
 		env := &Env{vc: vc, names: map[string]envEntry{}, pkg: pkg}
 		for i, p := range sf.Params {
 			v := args[i]
-			pt := vc.prog.resolveType(p.Type, pkg)
-			if v.T == nil || kindOf(pt) == v.K {
-				v.T = pt
+			if p.Type != "auto" {
+				pt := vc.prog.resolveType(p.Type, pkg)
+				if v.T == nil || kindOf(pt) == v.K {
+					v.T = pt
+				}
 			}
 			env.names[p.Name] = envEntry{val: &v}
 		}
@@ -446,8 +448,8 @@ func (vc *VC) specFrame(oldHeap func(comp string) string, st *State, changed map
 		return
 	}
 	var names []string
-	for n := range vc.prog.contracts.Specs {
-		if vc.prog.isRecursiveSpec(n) {
+	for n, sf := range vc.prog.contracts.Specs {
+		if vc.prog.isRecursiveSpec(n) || sf.NoInline {
 			names = append(names, n)
 		}
 	}
